@@ -145,6 +145,18 @@ func normalizePrefix(bound []s2.CellID, minL, maxL, mod int) s2.CellUnion {
 	return cu
 }
 
+// fallbackTaken: does FastCovering with these options reach normalizeCovering's "very large covering"
+// branch (NewRegionCoverer().Covering(&covering)) for this bound?
+func fallbackTaken(bound []s2.CellID, rc s2.RegionCoverer) bool {
+	minL, maxL, mod := clamp(rc)
+	cu := normalizePrefix(bound, minL, maxL, mod)
+	excess := len(cu) - rc.MaxCells
+	if excess <= 0 || rc.IsCanonical(cu) {
+		return false
+	}
+	return excess*len(cu) > 10000
+}
+
 // fallbackTerm gives the model the result of the default coverer on the cell unions that
 // normalizeCovering may hand to it for this bound (FastCovering's own options and the options
 // of the temporary coverer inside initialCandidates).
@@ -247,6 +259,7 @@ func interiorOpts(rc s2.RegionCoverer, tr *testRegion) s2.RegionCoverer {
 // ---- the run ----
 
 func runC05(c *vkit.Collector, rng *vkit.Rng, budget int) {
+	corpus(c, rng)
 	regs := genRegions(c, rng, budget)
 	nconf := 3 + mini(budget-1, 3)
 	for ri, tr := range regs {
@@ -262,6 +275,15 @@ func runC05(c *vkit.Collector, rng *vkit.Rng, budget int) {
 	}
 	synthetic(c, rng, budget)
 	c.ShardSize = maxi(8, (len(c.Cases)+7)/8) // heavy cases: 8 shards evaluate in parallel
+}
+
+// corpus: committed regression inputs, run first on every run.
+func corpus(c *vkit.Collector, rng *vkit.Rng) {
+	// KNOWN FINDING FastCovering(default-coverer-fallback).levels: MinLevel 10, LevelMod 3, MaxCells -2600
+	// returns one level-15 cell ((15-10) mod 3 != 0)
+	ctr := s2.PointFromCoords(0.325766071553077463107684, 0.298457980512092713176742, -0.897106069811991924112249)
+	tr := capRegion(rng, ctr, "corpus-1", float64(s1.ChordAngleFromAngle(s1.Angle(6.960887510911511e-06))))
+	observe(c, rng, tr, s2.RegionCoverer{MinLevel: 10, MaxLevel: 24, LevelMod: 3, MaxCells: -2600}, "corpus-1 "+tr.name, true)
 }
 
 func cfgJSON(rc s2.RegionCoverer) map[string]int {
@@ -323,7 +345,13 @@ func observe(c *vkit.Collector, rng *vkit.Rng, tr *testRegion, rc s2.RegionCover
 
 	// [S] level limits
 	checkLevels(c, "Covering", cov, minL, maxL, mod, rep)
-	checkLevels(c, "FastCovering", fast, minL, maxL, mod, rep)
+	if fallbackTaken(bound, rc) {
+		// known finding: that branch covers with NewRegionCoverer() defaults instead of the configured options
+		c.Class("fast:default-coverer-fallback")
+		checkLevels(c, "FastCovering(default-coverer-fallback)", fast, minL, maxL, mod, rep)
+	} else {
+		checkLevels(c, "FastCovering", fast, minL, maxL, mod, rep)
+	}
 	checkLevels(c, "InteriorCovering", icov, iminL, imaxL, imod, rep)
 	for _, id := range cu {
 		if !id.IsValid() || id.Level() > maxi(maxL, minL) {
